@@ -34,20 +34,21 @@ import (
 )
 
 type c15Req struct {
-	Fn     string            `json:"fn"`
-	Env    map[string]string `json:"env"` // hex -> hex; absent = nil map
-	Cmd    string            `json:"cmd"`
-	Args   []string          `json:"args"`
-	Setenv map[string]string `json:"setenv"` // hex -> hex
-	Unset  []string          `json:"unset"`  // hex
-	Stdin  string            `json:"stdin"`  // hex: content of the caller's stdin
-	So     string            `json:"so"`     // Exec: nil | buf | os | fail:N (a writer that accepts N bytes, then fails)
-	Se     string            `json:"se"`
-	Dump   string            `json:"dump"` // path of the helper child's report
-	Tmp    string            `json:"tmp"`  // directory for the capture files
-	Wait   string            `json:"wait"` // path: after the call wait (<= 60 s) for this file (written by the child's late descendant) before reading the captures
-	Kind   string            `json:"kind"` // raw: child | fatal | fatalf | plain | nil | custom
-	Code   int               `json:"code"`
+	Fn      string            `json:"fn"`
+	Env     map[string]string `json:"env"` // hex -> hex; absent = nil map
+	Cmd     string            `json:"cmd"`
+	Args    []string          `json:"args"`
+	Setenv  map[string]string `json:"setenv"` // hex -> hex
+	Unset   []string          `json:"unset"`  // hex
+	Stdin   string            `json:"stdin"`  // hex: content of the caller's stdin
+	So      string            `json:"so"`     // Exec: nil | buf | os | fail:N (a writer that accepts N bytes, then fails)
+	Se      string            `json:"se"`
+	Dump    string            `json:"dump"`    // path of the helper child's report
+	Tmp     string            `json:"tmp"`     // directory for the capture files
+	Streams string            `json:"streams"` // "" / "file": os.Std* become files; "pipe": pipes
+	Wait    string            `json:"wait"`    // path: after the call wait (<= 60 s) for this file (written by the child's late descendant) before reading the captures
+	Kind    string            `json:"kind"`    // raw: child | fatal | fatalf | plain | nil | custom
+	Code    int               `json:"code"`
 }
 
 type c15Res struct {
@@ -87,6 +88,38 @@ func c15Unhex(s string) string {
 }
 
 func c15Hex(s string) string { return hex.EncodeToString([]byte(s)) }
+
+// When C15_FDGUARD names a directory (the C15 check sets it), the protocol of this program is moved off
+// the file descriptors 0 and 1 before main() starts: os.Stdin / os.Stdout (which main reads AFTER all
+// init functions) become duplicates of them, and descriptors 0 and 1 themselves are pointed at guard
+// files.  A version of package sh that remembers the process's standard streams from start-up (instead of
+// reading os.Stdin / os.Stdout at the time of the call) then hands a command the guard files - which the
+// check notices as wrong streams - instead of letting it eat the request stream or write into the answers.
+var c15KeepStd []*os.File
+
+func init() {
+	dir := os.Getenv("C15_FDGUARD")
+	if dir == "" {
+		return
+	}
+	in, err1 := syscall.Dup(0)
+	out, err2 := syscall.Dup(1)
+	gi, err3 := os.Open(filepath.Join(dir, "guard-stdin"))
+	go_, err4 := os.OpenFile(filepath.Join(dir, "guard-stdout"), os.O_WRONLY|os.O_APPEND|os.O_CREATE, 0600)
+	if err1 != nil || err2 != nil || err3 != nil || err4 != nil {
+		return
+	}
+	syscall.CloseOnExec(in)
+	syscall.CloseOnExec(out)
+	if syscall.Dup3(int(gi.Fd()), 0, 0) != nil || syscall.Dup3(int(go_.Fd()), 1, 0) != nil {
+		return
+	}
+	gi.Close()
+	go_.Close()
+	c15KeepStd = []*os.File{os.Stdin, os.Stdout} // keep the Files of descriptors 0 and 1 alive: their finalizers would close them
+	os.Stdin = os.NewFile(uintptr(in), "/dev/stdin")
+	os.Stdout = os.NewFile(uintptr(out), "/dev/stdout")
+}
 
 func init() {
 	moreOps["sh"] = func(r req) interface{} {
@@ -180,27 +213,53 @@ func c15Do(q c15Req) (res c15Res) {
 		return res
 	}
 
-	// standard streams of the caller
-	inPath := filepath.Join(q.Tmp, "c15-stdin")
-	if err := ioutil.WriteFile(inPath, []byte(c15Unhex(q.Stdin)), 0600); err != nil {
-		return c15Res{Error: err.Error()}
+	// standard streams of the caller: os.Stdin / os.Stdout / os.Stderr are REASSIGNED for this call, to files or
+	// (streams == "pipe") to pipes whose other ends the op serves
+	var fin, fout, ferr *os.File
+	var outCh, errCh chan []byte
+	if q.Streams == "pipe" {
+		ir, iw, err := os.Pipe()
+		if err != nil {
+			return c15Res{Error: err.Error()}
+		}
+		fin = ir
+		payload := []byte(c15Unhex(q.Stdin))
+		go func() { iw.Write(payload); iw.Close() }()
+		collect := func() (*os.File, chan []byte, error) {
+			r, w, err := os.Pipe()
+			if err != nil {
+				return nil, nil, err
+			}
+			ch := make(chan []byte, 1)
+			go func() { b, _ := ioutil.ReadAll(r); r.Close(); ch <- b }()
+			return w, ch, nil
+		}
+		if fout, outCh, err = collect(); err != nil {
+			return c15Res{Error: err.Error()}
+		}
+		if ferr, errCh, err = collect(); err != nil {
+			return c15Res{Error: err.Error()}
+		}
+	} else {
+		inPath := filepath.Join(q.Tmp, "c15-stdin")
+		if err := ioutil.WriteFile(inPath, []byte(c15Unhex(q.Stdin)), 0600); err != nil {
+			return c15Res{Error: err.Error()}
+		}
+		var err error
+		if fin, err = os.Open(inPath); err != nil {
+			return c15Res{Error: err.Error()}
+		}
+		// fresh files per request: a late write of a descendant of an earlier request's child must not
+		// reach this request's captures
+		if fout, err = ioutil.TempFile(q.Tmp, "c15-stdout-"); err != nil {
+			return c15Res{Error: err.Error()}
+		}
+		if ferr, err = ioutil.TempFile(q.Tmp, "c15-stderr-"); err != nil {
+			return c15Res{Error: err.Error()}
+		}
+		defer os.Remove(fout.Name())
+		defer os.Remove(ferr.Name())
 	}
-	fin, err := os.Open(inPath)
-	if err != nil {
-		return c15Res{Error: err.Error()}
-	}
-	// fresh files per request: a late write of a descendant of an earlier request's child must not
-	// reach this request's captures
-	fout, err := ioutil.TempFile(q.Tmp, "c15-stdout-")
-	if err != nil {
-		return c15Res{Error: err.Error()}
-	}
-	ferr, err := ioutil.TempFile(q.Tmp, "c15-stderr-")
-	if err != nil {
-		return c15Res{Error: err.Error()}
-	}
-	defer os.Remove(fout.Name())
-	defer os.Remove(ferr.Name())
 	if q.Wait != "" {
 		os.Remove(q.Wait)
 	}
@@ -267,9 +326,18 @@ func c15Do(q c15Req) (res c15Res) {
 	}
 	c15FillErr(&res, rerr)
 	res.Text = c15Hex(text)
-	b, _ := ioutil.ReadFile(fout.Name())
+	var b []byte
+	if outCh != nil {
+		b = <-outCh // all write ends are closed: ours above, the child's with its exit
+	} else {
+		b, _ = ioutil.ReadFile(fout.Name())
+	}
 	res.OsStdout = hex.EncodeToString(b)
-	b, _ = ioutil.ReadFile(ferr.Name())
+	if errCh != nil {
+		b = <-errCh
+	} else {
+		b, _ = ioutil.ReadFile(ferr.Name())
+	}
 	res.OsStderr = hex.EncodeToString(b)
 	res.BufOut = hex.EncodeToString(bo.Bytes())
 	res.BufErr = hex.EncodeToString(be.Bytes())
